@@ -136,6 +136,7 @@ def gen_cyclic_blocks_dataset(rng: random.Random, sizes=None) -> dict:
         blocks.append(pool[at:at + sz])
         at += sz
     m = rng.choice([3, 3, 4, 5])
+    p_merge = rng.choice([0.15, 0.15, 0.5, 0.8])  # the high values: elements first appear inside tied buckets
     rankings = []
     for j in range(m):
         r = []
@@ -146,9 +147,13 @@ def gen_cyclic_blocks_dataset(rng: random.Random, sizes=None) -> dict:
                 i = rng.randrange(len(rot) - 1)
                 rot[i], rot[i + 1] = rot[i + 1], rot[i]
             part = [[e] for e in rot]
-            if rng.random() < 0.15 and len(part) > 1:
+            while rng.random() < p_merge and len(part) > 1:
                 i = rng.randrange(len(part) - 1)
-                part[i:i + 2] = [part[i] + part[i + 1]]
+                merged = part[i] + part[i + 1]
+                rng.shuffle(merged)
+                part[i:i + 2] = [merged]
+                if p_merge < 0.3:
+                    break
             if rng.random() < 0.1:
                 continue  # this ranking misses the whole block
             r += part
@@ -185,6 +190,16 @@ def scale(s: dict, k: float) -> dict:
 
 def gen_scheme(rng: random.Random, dyadic: bool = True) -> dict:
     """Valid scheme: B0=0, B1>0, B3<=B4, T0=T1, T2=0, T3=T4, all >= 0. Dyadic k/8 values keep sums exact."""
+    s = _gen_scheme(rng, dyadic)
+    if rng.random() < 0.12 and all(float(v).is_integer() for v in s["B"] + s["T"]):
+        # penalties written as int literals are legal input ("real >= 0 values")
+        s["B"] = [int(v) for v in s["B"]]
+        s["T"] = [int(v) for v in s["T"]]
+        s["family"] = s.get("family", "") + "/int-literals"
+    return s
+
+
+def _gen_scheme(rng: random.Random, dyadic: bool = True) -> dict:
     fam = rng.random()
     if rng.random() < 0.1:
         # B of a preset (what the library's own equivalence test looks at) with a free valid T, and the converse
